@@ -19,8 +19,8 @@ import (
 func TestMain(m *testing.M) {
 	ev.SetMeta(ev.Meta{
 		Property: "C13", Level: "exploration",
-		Rule: "rapid draws a prefix history (updates, deletes, commits at drawn collapse levels with disciplined garbage collection) ending in a clean committed checkpoint (possibly empty), SaveRoot(), then a batch of changes drawn from {new keys, changed values, same-value rewrites, delete-and-re-add of identical content, deletes, nothing}, commit at a drawn level + batch write, 0 or 1 garbage-collection pass, rollback through Rollback() or RollbackTrie(NewHashNode(checkpoint root, weight)), then 0..2 further collection passes and optionally new updates and a commit. " +
-			"Oracle: after the rollback Root()/Weight() equal the checkpoint's; a trie reopened from the checkpoint root passes the full observation (reference root, owner and verifying proof for the first/last block of every key) against the checkpoint model, immediately and after each later collection pass, and the raw-record walk from the checkpoint root finds every node; with New = storage keys after the rolled-back commit's batch minus storage keys just before it (computed from the harness's own snapshots), no key of New is left in storage after the rollback. " +
+		Rule: "rapid draws a prefix history (updates, deletes, commits at drawn collapse levels with disciplined garbage collection) ending in a clean committed checkpoint (possibly empty), SaveRoot(), then a batch of changes drawn from {new keys, changed values, same-value rewrites, delete-and-re-add of identical content, deletes, nothing}, commit at a drawn level + batch write, 0 or 1 garbage-collection pass, rollback through Rollback() or RollbackTrie(checkpoint given as NewHashNode(root, weight), as CopyRoot(level) taken at the checkpoint, or nil for the empty trie), then 0..2 further collection passes and optionally new updates and a commit. " +
+			"Oracle: after the rollback Root()/Weight() equal the checkpoint's; a trie reopened from the checkpoint root and the rolled-back trie itself pass the full observation (reference root, owner and verifying proof for the first/last block of every key) against the checkpoint model, immediately and after each later collection pass, and the raw-record walk from the checkpoint root finds every node; with New = storage keys after the rolled-back commit's batch minus storage keys just before it (computed from the harness's own snapshots), no key of New is left in storage after the rollback. " +
 			"Non-trivial = the rolled-back commit re-created at least one node hash that the checkpoint state already contained and created at least one genuinely new node; distinct = distinct step log.",
 		Assumptions: []string{"storage is internal/memkv", "at most one collection pass runs between the commit and its rollback (two passes legitimately delete the checkpoint's replaced nodes)", "equal values across keys are excluded while the C11 shared-node finding is listed"},
 	})
@@ -87,6 +87,14 @@ func run(rt *rapid.T) {
 		m.T.SaveRoot()
 	}
 	cpNodes := keysOf(db)
+	// the checkpoint handed to RollbackTrie is a hash reference or a copy of the root that keeps the top levels in memory
+	var cpCopy wmpt.Node
+	copyLevel := -1
+	if entry != "Rollback" && cpWeight > 0 && gen.Chance(rt, 50, "cpcopy") {
+		copyLevel = gen.Pick(rt, []int{0, 1, 2, 3, 64, 100}, "cpcopylevel")
+		cpCopy = m.T.CopyRoot(copyLevel)
+		m.Logf("checkpoint = CopyRoot(%d)", copyLevel)
+	}
 	// the batch of changes
 	var kinds []string
 	for i := gen.Uniform(rt, 0, 6, "nchanges"); i > 0; i-- {
@@ -146,9 +154,12 @@ func run(rt *rapid.T) {
 	if entry == "Rollback" {
 		m.T.Rollback()
 	} else {
-		if cpWeight == 0 {
+		switch {
+		case cpWeight == 0:
 			m.T.RollbackTrie(nil)
-		} else {
+		case cpCopy != nil:
+			m.T.RollbackTrie(cpCopy)
+		default:
 			m.T.RollbackTrie(wmpt.NewHashNode(append([]byte(nil), cpRoot...), cpWeight))
 		}
 	}
@@ -166,6 +177,8 @@ func run(rt *rapid.T) {
 			m.Fail("%s: checkpoint root does not resolve from storage: missing %v problems %v", when, w.Missing, w.Problems)
 		}
 		wmkit.ObserveTrie(wmkit.Reopened(db, cpRoot, cpWeight), cpModel, nil, m.Fail, when+": trie reopened at the checkpoint")
+		// the rolled-back trie itself (it has no uncommitted changes now) presents the checkpoint content as well
+		wmkit.ObserveTrie(m.T, cpModel, nil, m.Fail, when+": the rolled-back trie itself")
 	}
 	check("after " + entry)
 	for _, k := range created {
@@ -207,6 +220,7 @@ func run(rt *rapid.T) {
 	add(gcBetween, "gc-between-commit-and-rollback")
 	add(recreated > 0, "re-created-checkpoint-node")
 	add(cpWeight == 0, "empty-checkpoint")
+	add(cpCopy != nil, "checkpoint-is-a-root-copy")
 	add(len(kinds) == 0, "empty-batch")
 	add(len(created) > 0, "created-new-nodes")
 	_ = cpNodes
